@@ -445,6 +445,14 @@ public:
       sandbox_list.erase(el_ref);
     }
 
+    // Nothing that belongs to this incarnation of the sandbox may be visible
+    // if the sandbox object is created again: forget the callbacks registered
+    // (their owners can no longer unregister them)
+    {
+      std::lock_guard<std::mutex> lock(callback_lock);
+      callback_keys.clear();
+    }
+
     sandbox_created.store(Sandbox_Status::NOT_CREATED);
     return this->impl_destroy_sandbox();
   }
